@@ -246,13 +246,15 @@ static void faults_for_dump(Report & R, const IoEntry & E0, bool thorough, long 
         uint32_t orig;
         std::memcpy(&orig, D.data() + w.offset, 4);
         std::vector<uint32_t> repl = {0u, ~0u, orig ^ 1u, orig ^ 0x80000000u, orig ^ 0x00010000u, orig + 0x20000000u, orig - 0x20000000u, FMT_MAGIC_HEADER, FMT_MAGIC_FOOTER};
-        if (w.role == R_WIDTH) repl = {0u, 1u, 2u, 4u, 8u, 16u, ~0u, orig ^ 0x80000000u};
+        // the float-width word: every small value (a validation done on a derived quantity such as width/4 would accept
+        // neighbours of the legal values), powers of two, byte-swapped forms
+        if (w.role == R_WIDTH) repl = {0u, 1u, 2u, 3u, 4u, 5u, 6u, 7u, 8u, 9u, 10u, 11u, 12u, 13u, 15u, 16u, 17u, 24u, 32u, 64u, ~0u, orig ^ 0x80000000u, orig << 8, orig << 24, orig | 0x100u};
         if (w.role == R_TAG_HEADER || w.role == R_TAG_FOOTER)
             for (uint32_t t : KNOWN_TAGS) {
                 repl.push_back(t);
                 repl.push_back(t + 0x20000000u);
             }
-        if (!thorough && repl.size() > 12) {
+        if (!thorough && repl.size() > 12 && w.role != R_WIDTH) {
             std::vector<uint32_t> r2(repl.begin(), repl.begin() + 9);
             for (size_t i = 9; i < repl.size(); i += 5) r2.push_back(repl[i]);
             repl = r2;
